@@ -13,6 +13,7 @@ import Qryn.Proofs.PromSelect
 import Qryn.Proofs.ProfSelector
 import Qryn.Prof.SelectorCtx
 import Qryn.Proofs.ConfineTempo
+import Qryn.Proofs.ConfineProf
 import Qryn.Gen.VersionSites
 /-! # C13 — every read is confined to the requested time window and signal type
 
@@ -506,5 +507,58 @@ theorem tempo_legacy_tags_unwindowed (kv : String) (tag : Bytes) :
   rw [this, List.mem_singleton] at he
   subst he
   simp [mentionsDate, eq, isDateCol]
+
+end Qryn.C13
+
+/-! ## the Pyroscope read statements (`Prof/Planners.lean`), tied byte for byte to `prof.PlanMergeProfiles / PlanMergeTraces /
+    PlanSelectSeries / PlanSeries / PlanLabelNames / PlanLabelValues` by the `model-prof-plans` stream.
+    `fq` / `mq` are what `getMatchers` makes of the selector list the fingerprint planner resp. the planner itself was given
+    (`Prof.plan`, C17); the theorems hold for every selector list. -/
+namespace Qryn.C13
+open Qryn Qryn.Sql Qryn.Confine Qryn.Prof
+
+/-- **prof_merge_profiles_confined.** `MergeProfilesPlanner` (SelectMergeProfile, AnalyzeQuery): `profiles` is scanned with
+    `timestamp_ns >= From` and `<= To`, the fingerprint sub-query `fp` over `profiles_series_gin` with `date >= date(From − 30 min)`,
+    `date <= date(To)` and no other comparison on the date column. Slack 0, both table layouts, any limit. -/
+theorem prof_merge_profiles_confined (cfg : Cfg) (c : PCtx) (h : ProfCfg cfg c) (fpSels mainSels : List Selector) (fq mq : PQuery)
+    (hf : Prof.plan "" [] [] fpSels = some fq) (_hm : Prof.plan "" [] [] mainSels = some mq) :
+    confined cfg (winProf c) (mergeProfiles c fq.globals fq.kvs mq.globals) = true :=
+  (mergeProfiles_good cfg c h _ _ _ (plan_noDate _ _ _ _ _ hf)).confined
+
+/-- **prof_merge_traces_confined.** `MergeRawPlanner` → `MergeJoinedPlanner` → `MergeAggregatedPlanner`
+    (SelectMergeStacktraces): the only table read is `profiles` in `raw`, with `timestamp_ns >= From` and `< To`, and the
+    `fp` sub-query as above; `pre_joined`, `joined` and the final aggregate read WITH entries only. -/
+theorem prof_merge_traces_confined (cfg : Cfg) (c : PCtx) (h : ProfCfg cfg c) (typeUnit : Bytes) (fpSels mainSels : List Selector)
+    (fq mq : PQuery) (hf : Prof.plan "" [] [] fpSels = some fq) (_hm : Prof.plan "" [] [] mainSels = some mq) :
+    confined cfg (winProf c) (mergeTraces c typeUnit fq.globals fq.kvs mq.globals) = true :=
+  (mergeTraces_good cfg c h typeUnit _ _ _ (plan_noDate _ _ _ _ _ hf)).confined
+
+/-- **prof_select_series_confined.** `SelectSeriesPlanner` over `GetLabelsPlanner` (SelectSeries; any group-by list,
+    aggregation, step): `profiles` with `p.timestamp_ns >= From`, `<= To`; `profiles_series` (labels) and
+    `profiles_series_gin` (fp) with the two date bounds. -/
+theorem prof_select_series_confined (cfg : Cfg) (c : PCtx) (h : ProfCfg cfg c) (typeUnit : Bytes) (avg : Bool) (step : Int)
+    (groupBy : List Bytes) (fpSels mainSels : List Selector) (fq mq : PQuery)
+    (hf : Prof.plan "" [] [] fpSels = some fq) (hm : Prof.plan "" [] [] mainSels = some mq) :
+    confined cfg (winProf c) (selectSeries c typeUnit avg step (getLabels c groupBy fq.globals fq.kvs mq.globals) mq.globals) = true :=
+  (selectSeries_good cfg c h typeUnit avg step groupBy _ _ _ (plan_noDate _ _ _ _ _ hf) (plan_noDate _ _ _ _ _ hm)).confined
+
+/-- **prof_series_confined.** `PlanSeries` for one selector set (with or without label names; without any selector the
+    whole `profiles_series` of the window's days): the two date bounds on every scan. -/
+theorem prof_series_confined (cfg : Cfg) (c : PCtx) (h : ProfCfg cfg c) (labels : List Bytes) :
+    confined cfg (winProf c) (Prof.planSeries c labels none) = true ∧
+    ∀ (sels : List Selector) (q : PQuery), Prof.plan "" [] [] sels = some q →
+      confined cfg (winProf c) (Prof.planSeries c labels (some (q.globals, q.kvs))) = true := by
+  refine ⟨(profSeries_good cfg c h labels none (by intro p hp; cases hp)).confined, fun sels q hq => ?_⟩
+  apply GoodM.confined
+  apply profSeries_good cfg c h
+  intro p hp
+  injection hp with hp
+  subst hp
+  exact plan_noDate _ _ _ _ _ hq
+
+/-- **prof_labels_confined.** LabelNames / LabelValues without a selector: `profiles_series_gin` with the two date bounds. -/
+theorem prof_labels_confined (cfg : Cfg) (c : PCtx) (h : ProfCfg cfg c) (col : String) (label : Option Bytes) :
+    confined cfg (winProf c) (labelsNoSel c col label) = true :=
+  (labelsNoSel_good cfg c h col label).confined
 
 end Qryn.C13
